@@ -18,3 +18,115 @@ Print Assumptions C10_blocked_step_is_identity.
 
 Example C10_nonvacuous : lock_order [2; 0; 2; 1; 0]%nat = [0; 1; 2]%nat.
 Proof. reflexivity. Qed.
+
+(* ==== all schedules (DB/Invariants.v, DB/Locks.v, DB/Reach.v) ====================================
+   `reach ntab actors sched = run (init_st ntab actors) sched`: the state after ANY schedule of ANY
+   well-formed actor list (wf_actors: every table a writer names exists from the start, writes and
+   initializer tables are among its lock set; any number of registrars). *)
+From SV Require Import DB.Invariants DB.Locks DB.Reach.
+Open Scope nat_scope.
+
+(* the lock invariant: table mutex t is held by i exactly when actor i's program counter is in the range
+   in which it holds t (`held`: the first k locks of its sorted lock list while locking, all of them from the
+   last acquisition to the unlock step of Commit / Abort); db.mu is held by i exactly at the two pcs between
+   its Lock and Unlock; and the db.mu holder is never at a lock-acquiring pc and is always enabled *)
+Theorem C10_lock_invariant : forall ntab actors sched, wf_actors ntab actors ->
+  let s := reach ntab actors sched in
+  (forall t i, nth_error (s_tlock s) t = Some (Some i) <->
+               exists a, nth_error (s_actors s) i = Some a /\ In t (held a)) /\
+  (forall i, s_rlock s = Some i <-> exists a, nth_error (s_actors s) i = Some a /\ rholds a = true) /\
+  (forall i a, nth_error (s_actors s) i = Some a -> rholds a = true -> acquiring a = false /\ enabled s i = true).
+Proof. exact lock_invariant_reachable. Qed.
+Print Assumptions C10_lock_invariant.
+
+(* every actor's lock list is strictly increasing, within its declared table set, and its lock index is in range *)
+Theorem C10_lock_order_reachable : forall ntab actors sched i a, wf_actors ntab actors ->
+  nth_error (s_actors (reach ntab actors sched)) i = Some a ->
+  pc_ok (a_kind a) (a_pc a) = true /\ strictly_inc (a_locks a) /\
+  (forall t, In t (a_locks a) -> In t (tabs_of a) /\ t < ntab) /\
+  (forall k, a_pc a = PLocking k \/ a_pc a = PLocked k -> k < length (a_locks a)).
+Proof. exact actor_wf_reachable. Qed.
+Print Assumptions C10_lock_order_reachable.
+
+(* NO DEADLOCK: in every reachable state in which some actor has not finished, some actor has an enabled step *)
+Theorem C10_no_deadlock : forall ntab actors sched, wf_actors ntab actors ->
+  let s := run (init_st ntab actors) sched in
+  (exists i a, nth_error (s_actors s) i = Some a /\ a_pc a <> PDone) -> exists i, enabled s i = true.
+Proof. exact no_deadlock. Qed.
+Print Assumptions C10_no_deadlock.
+
+(* INDEPENDENCE (1): an actor is enabled exactly when the lock it is about to take is free; every other pc
+   is always enabled *)
+Theorem C10_enabled_iff_free : forall ntab actors sched, wf_actors ntab actors ->
+  let s := reach ntab actors sched in
+  (forall i a k t, nth_error (s_actors s) i = Some a -> a_pc a = PLocking k -> nth_error (a_locks a) k = Some t ->
+     (enabled s i = true <-> forall j, ~ holds (s_actors s) j t)) /\
+  (forall i a, nth_error (s_actors s) i = Some a -> a_pc a = PCommitIdx \/ a_pc a = PRegBefore ->
+     (enabled s i = true <-> forall j, ~ rholder (s_actors s) j)) /\
+  (forall i a, nth_error (s_actors s) i = Some a -> a_pc a <> PDone -> acquiring a = false -> enabled s i = true).
+Proof. exact enabled_iff_free_reachable. Qed.
+Print Assumptions C10_enabled_iff_free.
+
+(* INDEPENDENCE (2): a blocked unfinished actor waits either for a table that is in its own AND in the
+   (different) holder's declared table set, or for db.mu, whose (different) holder is enabled *)
+Theorem C10_blocked_only_by_sharing : forall ntab actors sched i a, wf_actors ntab actors ->
+  let s := reach ntab actors sched in
+  nth_error (s_actors s) i = Some a -> a_pc a <> PDone -> enabled s i = false ->
+  (exists k t j b, a_pc a = PLocking k /\ nth_error (a_locks a) k = Some t /\ j <> i /\
+      nth_error (s_actors s) j = Some b /\ In t (held b) /\ In t (tabs_of a) /\ In t (tabs_of b)) \/
+  (exists j b, (a_pc a = PCommitIdx \/ a_pc a = PRegBefore) /\ j <> i /\
+      nth_error (s_actors s) j = Some b /\ rholds b = true /\ enabled s j = true).
+Proof. exact blocked_only_by_sharing_reachable. Qed.
+Print Assumptions C10_blocked_only_by_sharing.
+
+(* INDEPENDENCE (3): a writer whose table set is disjoint from everybody else's never waits for a table *)
+Theorem C10_disjoint_never_waits : forall ntab actors sched i a k, wf_actors ntab actors ->
+  let s := reach ntab actors sched in
+  nth_error (s_actors s) i = Some a -> a_pc a = PLocking k ->
+  (forall j b t, j <> i -> nth_error (s_actors s) j = Some b -> In t (tabs_of a) -> ~ In t (tabs_of b)) ->
+  enabled s i = true.
+Proof. exact disjoint_never_waits_reachable. Qed.
+Print Assumptions C10_disjoint_never_waits.
+
+(* INDEPENDENCE (4): a step of actor j makes h the holder of table t only if h = j, t was free and t is in
+   j's own lock set *)
+Theorem C10_step_takes_only_own_tables : forall ntab actors sched j t h, wf_actors ntab actors ->
+  let s := reach ntab actors sched in
+  nth_error (s_tlock (step s j)) t = Some (Some h) -> nth_error (s_tlock s) t <> Some (Some h) ->
+  h = j /\ nth_error (s_tlock s) t = Some None /\
+  exists b, nth_error (s_actors s) j = Some b /\ In t (a_locks b) /\ In t (tabs_of b).
+Proof. exact step_takes_only_own_tables_reachable. Qed.
+Print Assumptions C10_step_takes_only_own_tables.
+
+(* TERMINATION: `total` is the exact number of remaining micro-steps; every enabled step decreases it by one *)
+Theorem C10_step_decreases : forall ntab actors sched i, wf_actors ntab actors ->
+  let s := reach ntab actors sched in
+  enabled s i = true -> S (total (step s i)) = total s.
+Proof. exact step_decreases_reachable. Qed.
+Print Assumptions C10_step_decreases.
+
+(* ... so a schedule that only picks enabled actors has at most step_bound (<= 11 + 2*|tabs| per writer, 5 per
+   registrar) steps, has finished everybody exactly when it has `total` many steps, and can be extended as long
+   as somebody is unfinished *)
+Theorem C10_terminates : forall ntab actors sched, wf_actors ntab actors ->
+  let s0 := init_st ntab actors in
+  all_enabled s0 sched ->
+  length sched + total (run s0 sched) = total s0 /\
+  length sched <= step_bound actors /\
+  (all_done (run s0 sched) <-> length sched = total s0) /\
+  (~ all_done (run s0 sched) -> exists i, enabled (run s0 sched) i = true).
+Proof. exact terminates. Qed.
+Print Assumptions C10_terminates.
+
+(* ... and from every reachable state there is a schedule of enabled steps that finishes everybody *)
+Theorem C10_completion_exists : forall ntab actors sched, wf_actors ntab actors ->
+  let s := reach ntab actors sched in
+  exists more, all_enabled s more /\ length more = total s /\ all_done (run s more).
+Proof. exact completion_exists_reachable. Qed.
+Print Assumptions C10_completion_exists.
+
+Example C10_nonvacuous_wf :
+  wf_actors 2 [(1%N, KWriter [1; 0; 1] [0] true [] []); (2%N, KWriter [0] [0] false [] []); (3%N, KRegistrar)].
+Proof.
+  intros ik [<-|[<-|[<-|[]]]]; cbn; repeat split; try (intros x Hx; cbn in Hx; intuition (subst; cbn; auto)).
+Qed.
